@@ -32,6 +32,8 @@ type StrV struct {
 	opaque bool
 	n      *Term
 	arr    *Term
+	// hex.EncodeToString of symbolic bytes, kept symbolic so that DecodeString inverts it for free
+	hexSrc []*Term
 }
 
 type Object struct {
@@ -149,6 +151,9 @@ func concStr(s string) *StrV { return &StrV{conc: true, s: s} }
 func (s *StrV) Len() int {
 	if s.conc {
 		return len(s.s)
+	}
+	if s.bs == nil && s.hexSrc != nil {
+		return 2 * len(s.hexSrc)
 	}
 	return len(s.bs)
 }
